@@ -205,6 +205,10 @@ pub fn encode_values(k: Kind, seed: u64) -> Vec<(Vec<u8>, u128)> {
                 push(edge.to_vec());
             }
             push(b"a:b c\t\"quoted\"".to_vec());
+            // decorated texts: code that trims, unquotes or otherwise "cleans" a text on one path shows here
+            for d in ["\"quoted\"", "\"\"", "\"", "'single'", " padded ", "trailing.", "MiXeD Case", "\"a\"b\"", "<angle>", "with\u{a0}nbsp", "\u{feff}bom", "e\u{301}combining"] {
+                push(d.as_bytes().to_vec());
+            }
         }
         Kind::MessageIntegrity => {
             for p in [0x00u8, 0xFF, 0x5A] {
